@@ -155,6 +155,11 @@ class Tu(V):
 
 
 @dataclass(frozen=True)
+class Gen(Tu):
+    """a generator object (one-shot iterator): same sequence view as a tuple, but not re-iterable"""
+
+
+@dataclass(frozen=True)
 class IteV(V):
     c: object   # z3 BoolRef
     a: V
